@@ -22,6 +22,8 @@ struct PCase {
     console: bool,
     /// only: create a scanner and call finish() without scanning any block
     finish_only: bool,
+    /// compile with the Rust API, serialize, and hand the rules to the C API through yrx_rules_deserialize
+    raw_nul_meta: bool,
     /// flags passed to yrx_compiler_create (the Rust compiler is configured through the methods
     /// the header documents for each flag)
     flags: u32,
@@ -355,7 +357,12 @@ unsafe fn c_flow(c: &PCase, rec: &mut Rec) -> Vec<ScanDump> {
     let mut listing = ScanDump::default();
     let mut rules: *mut YRX_RULES = null_mut();
     let mut second: Option<ScanDump> = None;
-    if c.one_shot {
+    if c.raw_nul_meta {
+        let r = yara_x::compile(joined(c).as_str()).expect("raw NUL source rejected by the Rust API");
+        let bytes = r.serialize().unwrap();
+        let code = rec.r("yrx_rules_deserialize", || yrx_rules_deserialize(bytes.as_ptr(), bytes.len(), &mut rules));
+        if code != SUCCESS { listing.status = 1; dumps.push(listing); return dumps; }
+    } else if c.one_shot {
         let src = cs(&joined(c));
         let code = rec.r("yrx_compile", || yrx_compile(src.as_ptr(), &mut rules));
         if code != SUCCESS { listing.status = 1; dumps.push(listing); return dumps; }
@@ -517,7 +524,7 @@ fn rust_flow(c: &PCase) -> Vec<ScanDump> {
     let mut dumps = vec![];
     let mut listing = ScanDump::default();
     let mut second: Option<ScanDump> = None;
-    let rules = if c.one_shot {
+    let rules = if c.one_shot || c.raw_nul_meta {
         match yara_x::compile(joined(c).as_str()) { Ok(r) => r, Err(_) => { listing.status = 1; dumps.push(listing); return dumps; } }
     } else {
         let mut comp = rust_compiler(c.flags);
